@@ -20,7 +20,9 @@
 (* bufio's error is sticky and Merger.WriteTo/Segment.WriteTo return the   *)
 (* error of the final Flush.  Invariants: success is only reported when    *)
 (* every byte was delivered; a closed channel yields ErrClosed or the      *)
-(* complete file.  Deviation "DropFlushErr" ignores the Flush result;      *)
+(* complete file.  Deviation "DropFlushErr" ignores the Flush result (or   *)
+(* lets a later call's result - a Sync() of the destination, seeded C12-j  *)
+(* - replace it);                                                          *)
 (* "PollAfterDataNil" adds a poll that returns nil after data was written. *)
 (*                                                                         *)
 (* The caller's writer may also fail for ONE Write call only (cfg.once:    *)
